@@ -153,7 +153,64 @@ def one_instance(ctx, name, cls, profile, seedstr, forms):
             ctx.distinct((name, fpr, form))
     if nodes > 1:
         bare_roundtrip(ctx, inst, s0, dict(case, form="etree"))
+        rewrite_after_change(ctx, inst, cls, profile, seedstr, dict(case, form="rewrite"))
     return inst
+
+
+def _string_leaves(agg, path=()):
+    """(path of attribute names, attribute) of string elements in NESTED aggregates (below the root)."""
+    from ofxtools import Types as T
+    from ofxtools.models.base import Aggregate
+
+    out = []
+    for k, d in ref_decl.decl(type(agg)).items():
+        v = agg.__dict__.get(k)
+        if isinstance(v, Aggregate):
+            out += _string_leaves(v, path + (k,))
+        elif path and type(d) in (T.String, T.NagString) and isinstance(v, str) and v != "Z":
+            out.append((path, k))
+    return out
+
+
+def rewrite_after_change(ctx, inst, cls, profile, seedstr, case):
+    """An instance that has been written is changed (a nested value assigned, a list member replaced) and written again: the file
+    shows the change - it equals what an equal instance that was never written before gives."""
+    import xml.etree.ElementTree as ET
+
+    try:
+        twin = instances.build(cls, random.Random(seedstr), profile.split("+")[0], opts=instances.Opts(explicit_none=profile.endswith("+none")))
+    except Exception:
+        return
+    changed = False
+    leaves = _string_leaves(inst)
+    if leaves:
+        path, attr = leaves[len(leaves) // 2]
+        for root in (inst, twin):
+            node = root
+            for k in path:
+                node = node.__dict__[k]
+            try:
+                setattr(node, attr, "Z")
+            except Exception:
+                return
+        changed = True
+    a, b = list(list.__iter__(inst)), list(list.__iter__(twin))
+    if len(a) >= 2 and type(a[0]) is type(a[-1]) and modelwalk.snap(a[0]) != modelwalk.snap(a[-1]):
+        list.__setitem__(inst, 0, a[-1])
+        list.__setitem__(twin, 0, b[-1])
+        changed = True
+    if not changed:
+        return
+    ctx.ev()
+    ctx.count("rewritten_after_change")
+    try:
+        got, want = ET.tostring(inst.to_etree()), ET.tostring(twin.to_etree())
+    except Exception as e:
+        ctx.violation(f"rewrite/raises-{type(e).__name__}", f"{type(inst).__name__}: writing again after a change raised {e!r}", case)
+        return
+    if got != want:
+        ctx.violation("rewrite/stale-output-after-change", f"{type(inst).__name__}: written, changed, written again: the second file does not show the change "
+                      f"(differs from a never-written equal instance): {got[-160:]!r} vs {want[-160:]!r}", case)
 
 
 def modelwalk_fp(s):
